@@ -326,6 +326,8 @@ def _r13e(rep):
         if x.get("kind") == "BinaryOperator" and x.get("opcode") == "=" and cast.ref_name(cast.kids(x)[0]) == "q_zero_tolerance":
             lit = [y for y in cast.walk(cast.kids(x)[1]) if y.get("kind") == "FloatingLiteral"]
             tol = float(lit[0]["value"]) if lit else None
+    if tol is None:
+        raise AnalysisError("R13e: no literal is assigned to q_zero_tolerance in dym_dynamical_matrices_with_dd_openmp_over_qpoints any more")
     cls = core.find_def("phonopy/harmonic/dynamical_matrix.py", "DynamicalMatrixNAC")
     pytol = None
     for s in cls.body:
